@@ -19,4 +19,11 @@ PROPS = {
         "assumptions": ["Go map iteration order is irrelevant to the property: ParseAnnotations results are compared grouped per key and sorted"],
         "search": [(1001, "thorough")],
     },
+    "C06": {
+        "judge": "CDI.Judge06.judge06",
+        "trusted": ["tools/gen_versions.py (regex translator of specs-go/version.go: version constants, validSpecVersions table, trivially false predicates)",
+                    "golang.org/x/mod/semver is modelled only on vX.Y.Z triples (the table entries), checked by ver_order_on_table"],
+        "assumptions": ["the bodies of requiresV040..V070 are hand-modelled and corresponded; the table and predicate attachment are regenerated"],
+        "search": [(1001, "thorough")],
+    },
 }
